@@ -3,9 +3,10 @@ from qe import *
 import k9
 import guards
 
-CLAIMS = ("R1 the rule-name literal that splits the rule list into loop rules and run-once-after rules equals PackedJoinKeys::name(), the split keeps `!=` in the loop, the run-once rules are applied outside the fix-point loop, and every rule-name literal compared in Optimizer::optimize equals exactly one rule's name(); "
+CLAIMS = ("R1 the rule-name literal that splits the rule list into loop rules and run-once-after rules equals PackedJoinKeys::name(), the split keeps `!=` in the loop, no loop rule is applied (directly or through a helper that is handed the loop rules) on any path after a run-once rule has been applied, and every rule-name literal compared in Optimizer::optimize equals exactly one rule's name(); "
           "R2 in JoinReorder, conditions collected because they did not become join edges (and non-equi conjuncts) are re-applied as Filters on every path to the normal return; "
-          "R3 a Cross JoinNode literal inside join_reorder.rs occurs only on the no-connecting-edge branch.")
+          "R3 a Cross JoinNode literal inside join_reorder.rs occurs only on the no-connecting-edge branch; "
+          "R4 the column collector that decides which relation each side of an equality belongs to adds a bare column name only for an unqualified reference (a qualified reference must resolve to exactly one relation, or its equality never becomes a join edge).")
 NOT_DECIDED = "that the 'no edge' branch is unreachable for every connected join graph, and the DP enumerator's connectivity invariant (graph algorithms over run-time data)."
 
 OR = "optimizer::OptimizerRule"
@@ -40,35 +41,51 @@ def rule_order(F, R, rid):
     pc = [c for c in f.calls() if c.name.rsplit("::", 1)[-1] == "partition"]
     ok = ok and len(pc) == 1 and origin(f, pc[0].args[1])[0] == "rv" and origin(f, pc[0].args[1])[1][1] == "closure:" + part[0][0].path if part else False
     R.check(ok, rid, "partition-literal==PackedJoinKeys::name()", f"the rule list is split on {[l[0] for g, l in part]} with {[l[1] for g, l in part]}, PackedJoinKeys::name() is {pjk[0]!r}", f.loc(), dict(literal=[l[0] for g, l in part], name=pjk[0]))
-    # final rules applied outside the iteration loop
-    opt_calls = [c for c in f.calls() if c.callee == OR + "::optimize"]
-    R.floor(rid, "rule.optimize call sites in optimize_with_rules", len(opt_calls), 2)
-    iters = [c for c in f.calls() if c.name.endswith("::next") and c.self_ty.startswith("std::ops::Range<usize>")]
-    if pc and iters:
-        hdr = iters[0]
-        for c in opt_calls:
-            recv = k9.kexpr(f, c.args[0])
-            in_loop = hdr.bb in f.reachable(c.bb) and f.dominates(hdr.bb, c.bb)
-            from_final = ".1" in recv.split("partition(")[1][:400] if "partition(" in recv else None
-            # decide by tuple component: loop_rules = partition(..).0, final_rules = .1
-            comp = None
-            if "partition(" in recv:
-                tail = recv[recv.index("partition("):]
-                depth = 0
-                for i, ch in enumerate(tail):
-                    if ch == "(":
-                        depth += 1
-                    elif ch == ")":
-                        depth -= 1
-                        if depth == 0:
-                            comp = tail[i + 1:i + 3]
-                            break
-            if comp == ".1":
-                R.check(not in_loop, rid, "final-rules-after-fixpoint", "the run-once rules (PackedJoinKeys) are applied inside the fix-point loop: JoinReorder would rebuild the join graph minus the packed edge", f.loc(c.bb), dict(receiver=recv[:100]))
-            elif comp == ".0":
-                R.check(in_loop, rid, "loop-rules-in-fixpoint", "loop rules are not applied in the fix-point loop", f.loc(c.bb), nontrivial=False)
+    # ordering: once a run-once rule (PackedJoinKeys) has been applied, no loop rule (JoinReorder, the pushdowns) runs again.
+    # An "application site" of a rule set is a direct `rule.optimize(..)` whose receiver comes out of that partition
+    # component, or a call of a helper of this module that is handed that component and applies OptimizerRule::optimize.
+    def component(op):
+        e = k9.kexpr(f, op)
+        if "partition(" not in e:
+            return None
+        tail = e[e.index("partition("):]
+        depth = 0
+        for i_, ch in enumerate(tail):
+            if ch == "(":
+                depth += 1
+            elif ch == ")":
+                depth -= 1
+                if depth == 0:
+                    return tail[i_ + 1:i_ + 3]
+        return None
+    sites = {".0": [], ".1": []}
+    for c in f.calls():
+        if c.callee == OR + "::optimize":
+            comp = component(c.args[0])
+            if comp in sites:
+                sites[comp].append(c)
             else:
-                R.undecided(rid, f"optimize-call@{c.line}", f"cannot tell which partition {recv[:80]} belongs to", f.loc(c.bb))
+                R.undecided(rid, f"optimize-call@{_n(f, c)}", f"cannot tell which partition {k9.kexpr(f, c.args[0])[:80]} belongs to", f.loc(c.bb))
+        elif c.name in F.bodies and c.name.startswith("optimizer::") and any(x.callee == OR + "::optimize" for x in F.fam_calls(c.name)):
+            for a in c.args:
+                comp = component(a)
+                if comp in sites:
+                    sites[comp].append(c)
+    R.floor(rid, "application sites of the loop rules", len(sites[".0"]), 1)
+    R.floor(rid, "application sites of the run-once rules", len(sites[".1"]), 1)
+    again = [(a.line, b.line) for a in sites[".1"] for b in sites[".0"] if f.path_exists(a.bb, b.bb)]
+    R.check(not again, rid, "final-rules-after-fixpoint", "a loop rule can run after (or interleaved with) the run-once rules: JoinReorder then sees PackedJoinKeys' packed ON pair, whose one side spans two relations, finds no edge for it and falls back to a cross join", f.loc(sites[".1"][0].bb) if sites[".1"] else f.loc(), dict(loop_sites=len(sites[".0"]), final_sites=len(sites[".1"])))
+    # the loop rules are applied in a fix-point loop (here or in the helper)
+    def in_range_loop(fn, c):
+        return any(x.name.endswith("::next") and x.self_ty.startswith("std::ops::Range<usize>") and fn.dominates(x.bb, c.bb) and fn.path_exists(c.bb, x.bb) for x in fn.calls())
+    loop_ok = False
+    for c in sites[".0"]:
+        if c.callee == OR + "::optimize":
+            loop_ok = loop_ok or in_range_loop(f, c)
+        else:
+            h = F.fn(c.name)
+            loop_ok = loop_ok or any(in_range_loop(h, x) for x in h.calls() if x.callee == OR + "::optimize")
+    R.check(loop_ok, rid, "loop-rules-in-fixpoint", "loop rules are not applied in a fix-point loop", f.loc(), nontrivial=False)
     o = F.family(OPT + "::optimize")
     cl = [(g, l) for g in o for l in g.raw["lits"] if l[0].startswith("s:") and l[1] in ("bin:!=", "bin:==")]
     R.floor(rid, "rule-name comparisons in Optimizer::optimize", len(cl), 5)
@@ -76,6 +93,11 @@ def rule_order(F, R, rid):
         v = l[0][2:]
         n = list(names.values()).count(v)
         R.check(n == 1, rid, f"optimize:literal:{v}", f"rule-name literal {v!r} matches {n} rules' name()", f"{g.file}:{l[2][0]}", dict(literal=v), nontrivial=False)
+
+
+def _n(f, c):
+    same = sorted([x for x in f.calls() if x.name == c.name], key=lambda x: (x.line, x.bb))
+    return same.index(c)
 
 
 def run(F, R):
